@@ -1,10 +1,13 @@
 package gosim
 
 import (
+	"context"
 	"errors"
 	"fmt"
 	"io"
 	"io/fs"
+	"os"
+	"syscall"
 	"unicode/utf8"
 )
 
@@ -40,6 +43,23 @@ func (e errList) Is(target error) bool {
 
 var ErrInjectedList error = errList{"read failed"}
 
+// Sentinels: well-known error VALUES of the standard library delivered as they are (not wrapped): code
+// that singles out one of them ("this one means the input ended") treats a failure as something else.
+var Sentinels = map[string]error{
+	"sentinel-unexpected-eof": io.ErrUnexpectedEOF,
+	"sentinel-closed-pipe":    io.ErrClosedPipe,
+	"sentinel-no-progress":    io.ErrNoProgress,
+	"sentinel-short-buffer":   io.ErrShortBuffer,
+	"sentinel-deadline":       os.ErrDeadlineExceeded,
+	"sentinel-closed":         os.ErrClosed,
+	"sentinel-canceled":       context.Canceled,
+	"sentinel-eintr":          syscall.EINTR,
+	"sentinel-eagain":         syscall.EAGAIN,
+}
+
+// SentinelKinds in a fixed order (choices are drawn by index).
+var SentinelKinds = []string{"sentinel-unexpected-eof", "sentinel-closed-pipe", "sentinel-no-progress", "sentinel-short-buffer", "sentinel-deadline", "sentinel-closed", "sentinel-canceled", "sentinel-eintr", "sentinel-eagain"}
+
 // InjectedErr returns the error value a reader plan injects.
 func InjectedErr(kind string) error {
 	switch kind {
@@ -51,6 +71,9 @@ func InjectedErr(kind string) error {
 		return ErrInjectedTimeout
 	case "uncomparable":
 		return ErrInjectedList
+	}
+	if e, ok := Sentinels[kind]; ok {
+		return e
 	}
 	return ErrInjected
 }
